@@ -118,7 +118,7 @@ Print Assumptions C08_unit_run.
 (* exactness (partial): for every unit — ASSOCIATE constructs included — whose statements fall
    through the cascade branches in front of the gate (FORMAT_RE, END ASSOCIATE, ASSOCIATE_RE, GO TO:
    evaluated on the text; the gate itself is C08_gate), with properly closed ASSOCIATE constructs,
-   correct name tables, no user procedure spelled like an INTRINSICS entry (region 3) and inner
+   correct name tables, no visible procedure spelled like a statement keyword (region 3) and inner
    designator parts that are variables: unit.calls is duplicate-free and is, as a set, what the unit
    invokes *)
 Theorem C08_exact : forall tb ss srcs,
@@ -133,25 +133,27 @@ Definition C08_full_statement : Prop := C08_statement.
 Theorem C08_refuted_unresolved_array :
   let ss := [SForm None true (FAssign (ref1 "w" (num "1")) (ref1 "z" (num "2")))] in
   let tb_ford := tb0 [] in
-  let tb_true := tb0 [(s "w", EVar (s "real") true); (s "z", EVar (s "real") true)] in
+  let tb_true := tb0 [(s "w", EVar (s "real") true false); (s "z", EVar (s "real") true false)] in
   forallb wf_stmt ss = true /\ map render_stmt ss = [s "w(1) = z(2)"] /\
   region_unresolved tb_ford tb_true ss = true /\
   recorded tb_ford (map render_stmt ss) = Some [s "w"; s "z"] /\ calls_of tb_true ss = [].
 Proof. exact refuted_unresolved_array. Qed.
 Print Assumptions C08_refuted_unresolved_array.
 
-Theorem C08_refuted_intrinsic_named : ~ C08_full_statement.
-Proof. exact (refutes_statement _ _ (proj1 refuted_intrinsic_named)). Qed.
-Print Assumptions C08_refuted_intrinsic_named.
+Theorem C08_refuted_keyword_named : ~ C08_full_statement.
+Proof. exact (refutes_statement _ _ (proj1 refuted_keyword_named)). Qed.
+Print Assumptions C08_refuted_keyword_named.
 
 (* repaired in FORD (same last component, labelled CALL, FORMAT without blank, ASSOCIATE with an
    expression or a not yet correlated function as selector, computed GO TO): the former witnesses
    of the refutations, now regression inputs on which model and Spec agree *)
 Theorem C08_fixed_witnesses :
   agrees w_same_last_tb w_same_last /\ agrees w_labelled_tb w_labelled /\ agrees (tb0 []) w_format /\
-  agrees w_assoc_expr_tb w_assoc_expr /\ agrees w_crash_tb w_crash /\ agrees w_goto_tb w_goto.
+  agrees w_assoc_expr_tb w_assoc_expr /\ agrees w_crash_tb w_crash /\ agrees w_goto_tb w_goto /\
+  agrees w_intrinsic_tb w_intrinsic.
 Proof.
   exact (conj (proj1 fixed_same_last) (conj (proj1 fixed_labelled_call) (conj (proj1 fixed_format_nospace)
-        (conj (proj1 fixed_assoc_expr) (conj (proj1 fixed_assoc_function_selector) (proj1 fixed_goto)))))).
+        (conj (proj1 fixed_assoc_expr) (conj (proj1 fixed_assoc_function_selector) (conj (proj1 fixed_goto)
+        (proj1 fixed_intrinsic_named))))))).
 Qed.
 Print Assumptions C08_fixed_witnesses.
